@@ -28,13 +28,25 @@ class RStream:
         self.p = 0
 
     def read(self, n=-1):
-        if n is None or n < 0:
-            r = self.b[self.p:]
-            self.p = len(self.b)
-            return r
-        r = self.b[self.p : self.p + n]
-        self.p += len(r)
+        avail = len(self.b) - self.p
+        if n is None or n < 0 or n >= avail:
+            take = avail
+        else:
+            # never slice by a symbolic n (that realises it): count up to it, forking <= avail times
+            take = 0
+            while take < n:
+                take += 1
+        r = self.b[self.p : self.p + take]
+        self.p += take
         return r
+
+
+def fixlen(y, maxlen: int):
+    """Fork on len(y) so that the returned bytes has a concrete length and symbolic elements."""
+    for L in range(maxlen + 1):
+        if len(y) == L:
+            return bytes([y[k] for k in range(L)])
+    raise AssertionError("length bound violated")
 
 
 class WStream:
@@ -166,3 +178,218 @@ def roundtrip_holds(v, expect_reject: bool) -> bool:
     if code != gb.Message.CHANNEL_DATA or cid != ch.id:
         return False
     return teq(v, gb.loads_internal(data))
+
+
+# ---------------------------------------------------------------------------------------
+# C12: reference encoder for execnet dump format version 2, written from the format
+# description (opcode letter table, big-endian 4-byte two's-complement lengths/ints, decimal
+# text for big ints, IEEE-754 BE doubles, post-order containers, STOP) - deliberately shares
+# no code with gateway_base (no struct for ints, own digit loop).
+# ---------------------------------------------------------------------------------------
+
+def ref_int4(n) -> bytes:
+    m = n % 4294967296
+    return bytes([m // 16777216, (m // 65536) % 256, (m // 256) % 256, m % 256])
+
+
+def ref_decimal(n) -> bytes:
+    if n == 0:
+        return b"0"
+    neg = n < 0
+    if neg:
+        n = -n
+    digits = []
+    while n > 0:
+        digits.append(48 + n % 10)
+        n = n // 10
+    if neg:
+        digits.append(45)
+    digits.reverse()
+    return bytes(digits)
+
+
+def ref_double(x: float) -> bytes:
+    import struct
+
+    return struct.pack(">d", x)  # floats are concrete in every obligation (not solver-decided)
+
+
+def ref_obj(v) -> bytes:
+    t = type(v)
+    if v is None:
+        return b"L"
+    if t is bool:
+        return b"R" if v else b"C"
+    if t is int:
+        if -2147483648 <= v <= 2147483647:
+            return b"F" + ref_int4(v)
+        txt = ref_decimal(v)
+        return b"H" + ref_int4(len(txt)) + txt
+    if t is float:
+        return b"D" + ref_double(v)
+    if t is complex:
+        return b"T" + ref_double(v.real) + ref_double(v.imag)
+    if t is bytes:
+        return b"A" + ref_int4(len(v)) + v
+    if t is str:
+        e = v.encode("utf-8")
+        return b"N" + ref_int4(len(e)) + e
+    if t is list:
+        out = b"K" + ref_int4(len(v))
+        idx = 0
+        for item in v:
+            out += ref_obj(idx) + ref_obj(item) + b"P"
+            idx += 1
+        return out
+    if t is dict:
+        out = b"J"
+        for k, x in v.items():
+            out += ref_obj(k) + ref_obj(x) + b"P"
+        return out
+    if t is tuple:
+        out = b""
+        for item in v:
+            out += ref_obj(item)
+        return out + b"@" + ref_int4(len(v))
+    if t is set or t is frozenset:
+        out = b""
+        for item in v:  # same object => same iteration order as the implementation sees
+            out += ref_obj(item)
+        return out + (b"O" if t is set else b"E") + ref_int4(len(v))
+    raise TypeError(t)
+
+
+def ref_dumps(v) -> bytes:
+    return b"\x02" + ref_obj(v) + b"Q"
+
+
+def format_matches(v) -> bool:
+    """dumps(v) is byte-for-byte the reference encoding; dump() writes the same bytes."""
+    d = gb.dumps(v)
+    if d != ref_dumps(v):
+        return False
+    w = WStream()
+    gb.dump(w, v)
+    if w.getvalue() != d:
+        return False
+    return gb.dumps_internal(v) == ref_obj(v) + b"Q"
+
+
+def ref_coerce(op: bytes, payload: bytes, py2str_as_py3str: bool, py3str_as_py2str: bool):
+    """What the documented coercion switches make of a string opcode's payload."""
+    if op == b"M":  # PY2STRING
+        return payload.decode("latin-1") if py2str_as_py3str else payload
+    if op == b"N":  # PY3STRING
+        return payload if py3str_as_py2str else payload.decode("utf-8")
+    if op == b"S":  # UNICODE
+        return payload.decode("utf-8")
+    if op == b"A":  # BYTES
+        return payload
+    raise ValueError(op)
+
+
+# ---------------------------------------------------------------------------------------
+# C13: loading untrusted bytes
+# ---------------------------------------------------------------------------------------
+
+SUPPORTED_TYPES = (type(None), bool, int, float, complex, bytes, str, list, tuple, dict, set, frozenset)
+
+_tripped = []
+_channels_made = []
+
+
+def arm_tripwires():
+    """exec/eval/compile/__import__ as seen from gateway_base + Channel construction are recorded."""
+    def trip(name):
+        def f(*a, **k):
+            _tripped.append(name)
+            raise RuntimeError("tripwire: loader called " + name)
+        return f
+
+    for name in ("exec", "eval", "compile", "__import__"):
+        setattr(gb, name, trip(name))
+    orig = gb.Channel.__init__
+
+    def init(self, *a, **k):
+        _channels_made.append(1)
+        orig(self, *a, **k)
+
+    gb.Channel.__init__ = init
+
+
+def only_supported(v, depth=0) -> bool:
+    if type(v) not in SUPPORTED_TYPES:
+        return False
+    if depth > 50:
+        return True
+    if isinstance(v, list) and len(v) > 4096:
+        # a lying NEWLIST length: all slots are None except those a SETITEM touched; look at both ends
+        return only_supported(v[:2048], depth + 1) and only_supported(v[-2048:], depth + 1)
+    if isinstance(v, (list, tuple, set, frozenset)):
+        for x in v:
+            if not only_supported(x, depth + 1):
+                return False
+    elif isinstance(v, dict):
+        for k, x in v.items():
+            if not only_supported(k, depth + 1) or not only_supported(x, depth + 1):
+                return False
+    return True
+
+
+ALLOC_HITS = []
+
+
+def _innermost_execnet_function(tb) -> str:
+    name = "?"
+    while tb is not None:
+        if tb.tb_frame.f_code.co_filename.endswith("gateway_base.py"):
+            name = tb.tb_frame.f_code.co_name
+        tb = tb.tb_next
+    return name
+
+
+def untrusted_load_ok(data, must_fail: bool = False, via_loads: bool = True, tolerate_alloc: bool = True) -> bool:
+    """C13 oracle: value of supported types, or DataFormatError, or EOFError; nothing else.
+
+    MemoryError raised by the NEWLIST pre-allocation ([None] * length) is the over-allocation case
+    the property text sets aside as a separate known finding: core obligations tolerate exactly
+    that site (tolerate_alloc=True), the alloc_* hunting obligations do not and so report it.
+    """
+    del _tripped[:]
+    del _channels_made[:]
+    try:
+        if via_loads:
+            v = gb.loads(data)
+        else:
+            v = gb.load(data)  # a stream object
+    except gb.DataFormatError:
+        return not _tripped and not _channels_made
+    except EOFError:
+        return not _tripped and not _channels_made
+    except MemoryError as e:
+        if tolerate_alloc and _innermost_execnet_function(e.__traceback__) == "load_newlist":
+            ALLOC_HITS.append(1)
+            return True
+        raise
+    if must_fail:
+        return False
+    return only_supported(v) and not _tripped and not _channels_made
+
+
+class CutStream:
+    """read(n) over concrete bytes `b` truncated at a symbolic offset `cut` (compare, never slice by it)."""
+
+    def __init__(self, b: bytes, cut):
+        self.b, self.cut, self.p = b, cut, 0
+
+    def read(self, n=-1):
+        if n is None or n < 0:
+            n = len(self.b)
+        out = []
+        for k in range(self.p, min(self.p + n, len(self.b))):
+            if k < self.cut:
+                out.append(self.b[k])
+            else:
+                break
+        self.p += len(out)
+        return bytes(out)
